@@ -43,9 +43,9 @@ func (f *vFs) FS() fs.FS { return f }
 // tick lets (symbolic) time pass strictly.
 func (f *vFs) tick() {
 	if f.advance {
-		prev := time.Now()
+		prev := vNow()
 		vClockAdvance()
-		vAssume(time.Now().After(prev))
+		vAssume(vNow().After(prev))
 	}
 }
 
@@ -58,12 +58,12 @@ func (f *vFs) WriteFile(name string, content []byte) error {
 			if n > len(content) {
 				n = len(content)
 			}
-			f.put(name, append([]byte{}, content[:n]...), time.Now())
+			f.put(name, append([]byte{}, content[:n]...), vNow())
 			f.writes = append(f.writes, name)
 		}
 		return errors.New("injected write failure")
 	}
-	f.put(name, append([]byte{}, content...), time.Now())
+	f.put(name, append([]byte{}, content...), vNow())
 	f.writes = append(f.writes, name)
 	return nil
 }
@@ -200,7 +200,7 @@ func VFsNew() {
 func VFsPut(name, content string, mtime time.Time) { vCliFs.put(name, []byte(content), mtime) }
 func VFsPutNow(name, content string) {
 	vCliFs.tick()
-	vCliFs.put(name, []byte(content), time.Now())
+	vCliFs.put(name, []byte(content), vNow())
 }
 func VFsWrites() []string { return vCliFs.writes }
 func VFsGet(name string) (string, bool) {
